@@ -175,6 +175,7 @@ public:
             clear();
             alloc_.deallocate(data_, capacity_);
             data_ = nullptr;
+            capacity_ = 0;
         }
     }
 
